@@ -8,6 +8,13 @@ import glob, json, os, sys
 
 ROOT = os.path.dirname(os.path.dirname(os.path.abspath(__file__)))
 ANGLES = {
+    "substitute": "a refactoring that replaces a standard-library or language construct by a NEAR-equivalent one whose behaviour "
+                  "differs only in a corner: split / partition / rsplit with or without maxsplit, find / index, strip / rstrip / "
+                  "removesuffix, slicing vs. indexing, `or` default vs. `is None` test, // vs. / or >> on negatives, int() with and "
+                  "without base, encode / decode with another codec or errors= mode, sorted() vs. insertion order, dict vs. list of "
+                  "pairs (duplicate keys), startswith vs. `in`, == vs. `is`, range end +-1 hidden in a rewritten loop, read(n) vs. "
+                  "read() then slice, a comprehension replacing a loop with break, any()/all() replacing a loop with early return. "
+                  "Also welcome: the NEGATIVE clauses of the property (what must be rejected, omitted, or never reported).",
     "edge": "the change must bite only at the EDGE of the property's quantifier - inputs that are valid and inside the property's "
             "domain but rare: extreme or boundary sizes and values (empty, one element, maximum field widths, exact multiples of a "
             "block / buffer size), unusual-but-legal argument types or combinations (bytearray or memoryview instead of bytes, a "
